@@ -7,6 +7,7 @@
 //   thread 0 = producer, thread 1 = consumer; operations as in coq/Model/RingV.v
 #include <cds/container/weak_ringbuffer.h>
 #include <vcase.h>
+#include "watchdog.h"
 #include <cstring>
 #include <deque>
 #include <memory>
@@ -110,6 +111,7 @@ static void run_on( vcase::Case const& c, size_t cap )
         }
     }, nullptr, nullptr, 20000 );
     vcase::print_log( c );
+    c12wd::logged();
     std::printf( "monitor capacity %zu\n", m.cap );
     std::printf( "monitor counts push_ok %zu push_fail %zu front_ok %zu front_null %zu pop_ok %zu left %zu fail_on_empty %zu\n",
                  m.npush_ok, m.npush_fail, m.nfront_ok, m.nfront_null, m.npop_ok, m.shadow.size(), m.nfail_on_empty );
@@ -125,8 +127,10 @@ int main( int argc, char** argv )
 {
     if ( argc < 2 ) { std::fprintf( stderr, "usage: %s casefile\n", argv[0] ); return 2; }
     std::ifstream in( argv[1] );
+    c12wd::start();
     vcase::Case c;
     while ( vcase::read_case( in, c )) {
+        c12wd::arm( c );
         size_t cap = c.cfg.size() > 0 ? (size_t) c.cfg[0] : 16;
         bool exp2 = c.cfg.size() > 1 ? c.cfg[1] != 0 : true;
         while ( c.threads.size() < 2 ) c.threads.push_back( std::vector<vcase::op_t>());
@@ -141,5 +145,6 @@ int main( int argc, char** argv )
         if ( exp2 ) run_on<cc::WeakRingBuffer<void, ring_traits<dyn_exp2>>>( c, cap );
         else run_on<cc::WeakRingBuffer<void, ring_traits<dyn_any>>>( c, cap );
     }
+    c12wd::disarm();
     return 0;
 }
